@@ -197,3 +197,18 @@ func verifZone(z int) *time.Location {
 	}
 	return time.UTC
 }
+
+// VerifH_C16_HTTPDateZone: the HTTP-date decoder on a valid date whose zone
+// field is any three bytes (the real time.Parse runs from its SSA on this
+// template): it is accepted exactly for GMT, and then it is that instant.
+func VerifH_C16_HTTPDateZone() {
+	zone := vrt.StrN("zone", 3)
+	text := "Sun, 06 Nov 1994 08:49:37 " + zone
+	var t Time
+	err := t.UnmarshalText([]byte(text))
+	vrt.Assert((err == nil) == (zone == "GMT"), "HTTP date: a zone field other than GMT is refused")
+	if err == nil {
+		vrt.Assert(time.Time(t).Unix() == 784111777, "HTTP date: the decoded instant")
+	}
+	vrt.Reach("http-date-zone")
+}
